@@ -9,7 +9,7 @@ CONSTANTS
   FixPut = TRUE
   MaxReplace = 1
   DelDropsEmpty = FALSE
-  CloseOnlyWithRegions = FALSE
-  FixDial = FALSE
+  CloseOnlyWithRegions = TRUE
+  FixDial = TRUE
 INVARIANTS OneCachedPerAddr DialsBounded ClosedIsTerminal
 CHECK_DEADLOCK FALSE
